@@ -27,68 +27,23 @@ VARIABLES sk, obj
 dvars == <<sk, obj>>
 
 Live == DOMAIN sk
-Max2(a, b) == IF a > b THEN a ELSE b
-Min2(a, b) == IF a < b THEN a ELSE b
-SumSeq(s) == FoldLeft(LAMBDA a, b : a + b, 0, s)
-Bit(x, e) == (x \div 2^e) % 2
-PopCount(x) == SumSeq([e \in 1..10 |-> Bit(x, e - 1)])
-BitLen(x) == IF x = 0 THEN 0 ELSE 1 + (CHOOSE e \in 0..30 : 2^e <= x /\ x < 2^(e + 1))
-LowestZeroFrom(x, s) == CHOOSE t \in s..31 : Bit(x, t) = 0 /\ \A e \in s..(t - 1) : Bit(x, e) = 1
-RECURSIVE MergeSorted(_, _)
-MergeSorted(a, b) == IF a = <<>> THEN b ELSE IF b = <<>> THEN a
-   ELSE IF Head(a) < Head(b) THEN <<Head(a)>> \o MergeSorted(Tail(a), b)
-   ELSE <<Head(b)>> \o MergeSorted(a, Tail(b))
-CoinAt(cs, i) == IF i <= Len(cs) THEN cs[i] ELSE 0
-\* zip_buffer: positions offset, offset + 2, ... of a sorted buffer of 2k items
-ZipBuf(buf, c) == LET p == IF ZipIgnoresCoin = 1 THEN 0 ELSE c IN [i \in 1..(Len(buf) \div 2) |-> buf[2 * i - 1 + p]]
-LevelOr(lv, j) == IF j <= Len(lv) THEN lv[j] ELSE <<>>
-Pad(lv, need) == [j \in 1..Max2(Len(lv), need) |-> LevelOr(lv, j)]
-
-\* in_place_propagate_carry(starting level st (0-based), size-k buffer, size-2k buffer, as update?) on [lv, bp]: [lv, bp, used]
-RECURSIVE Carry(_, _, _, _, _, _)
-Carry(lv, cur, lvl, ending, cs, ci) ==     \* cur = content of lv[ending]; merge the levels lvl .. ending - 1 into it
-  IF lvl = ending THEN [lv |-> [lv EXCEPT ![ending + 1] = cur], used |-> ci]
-  ELSE Carry([lv EXCEPT ![lvl + 1] = <<>>], ZipBuf(MergeSorted(lv[lvl + 1], cur), CoinAt(cs, ci + 1)), lvl + 1, ending, cs, ci + 1)
-Propagate(lv, bp, st, bufk, buf2k, asUpdate, cs, ci) ==
-  LET ending == LowestZeroFrom(bp, st)
-      lv1 == Pad(lv, ending + 1)
-      first == IF asUpdate THEN ZipBuf(buf2k, CoinAt(cs, ci + 1)) ELSE bufk
-      r == Carry(lv1, first, st, ending, cs, IF asUpdate THEN ci + 1 ELSE ci)
-  IN [lv |-> r.lv, bp |-> bp + 2^st, used |-> r.used]
+INSTANCE ClassicQMech      \* the mechanism operators (ZipBuf, Propagate, Upd, Replay, Levels, MergeCore, ...)
 
 MsAdd(b, x) == IF x \in DOMAIN b THEN [b EXCEPT ![x] = @ + 1] ELSE (x :> 1) @@ b
 MsCnt(b, x) == IF x \in DOMAIN b THEN b[x] ELSE 0
 MsUnion(a, b) == [x \in DOMAIN a \cup DOMAIN b |-> MsCnt(a, x) + MsCnt(b, x)]
 Fresh(k) == [k |-> k, n |-> 0, bb |-> <<>>, lv |-> <<>>, bp |-> 0, all |-> <<>>, minI |-> 0, maxI |-> 0]
-\* quantiles_sketch::update on the representation: [s, used] (coins from position ci + 1)
-Upd(s, v, cs, ci) ==
-  LET bb1 == MergeSorted(s.bb, <<v>>)
-      full == Len(bb1) = 2 * s.k
-      p == Propagate(s.lv, s.bp, 0, <<>>, bb1, TRUE, cs, ci)
-  IN IF full THEN [s |-> [s EXCEPT !.bb = <<>>, !.lv = p.lv, !.bp = p.bp, !.n = @ + 1], used |-> p.used]
-     ELSE [s |-> [s EXCEPT !.bb = bb1, !.n = @ + 1], used |-> ci]
+\* the design keeps the base buffer canonical (sorted): every use of it in the code sorts it first, and the exhaustive
+\* exploration offers the items in every order anyway
+Canon(s) == [s EXCEPT !.bb = SortAsc(@)]
 Ghost(s, n0, v) == [s EXCEPT !.all = MsAdd(@, v), !.minI = IF n0 = 0 THEN v ELSE Min2(@, v), !.maxI = IF n0 = 0 THEN v ELSE Max2(@, v)]
-UpdateRes(s, v, cs) == LET r == Upd(s, v, cs, 0) IN [s |-> Ghost(r.s, s.n, v), used |-> r.used]
-RECURSIVE Replay(_, _, _, _)
-Replay(s, xs, cs, ci) == IF xs = <<>> THEN [s |-> s, used |-> ci]
-                         ELSE LET r == Upd(s, Head(xs), cs, ci) IN Replay(r.s, Tail(xs), cs, r.used)
-\* standard_merge: replay of the source base buffer, then one carry per source level
-RECURSIVE Levels(_, _, _, _, _)
-Levels(t, src, j, cs, ci) ==       \* j: 0-based source level
-  IF j >= Len(src.lv) THEN [s |-> t, used |-> ci]
-  ELSE IF src.lv[j + 1] = <<>> THEN Levels(t, src, j + 1, cs, ci)
-  ELSE LET p == Propagate(t.lv, t.bp, j, src.lv[j + 1], <<>>, FALSE, cs, ci)
-       IN Levels([t EXCEPT !.lv = p.lv, !.bp = p.bp], src, j + 1, cs, p.used)
+UpdateRes(s, v, cs) == LET r == Upd(s, v, cs, 0) IN [s |-> Ghost(Canon(r.s), s.n, v), used |-> r.used]
 MergeGhost(r, s, o) == [r EXCEPT !.n = s.n + o.n, !.all = MsUnion(s.all, o.all),
                                   !.minI = IF s.n = 0 THEN o.minI ELSE Min2(s.minI, o.minI),
                                   !.maxI = IF s.n = 0 THEN o.maxI ELSE Max2(s.maxI, o.maxI)]
 MergeRes(s, o, cs) ==
   IF o.n = 0 THEN [s |-> s, used |-> 0]
-  ELSE IF o.bp = 0 THEN LET r == Replay(s, o.bb, cs, 0) IN [s |-> MergeGhost(r.s, s, o), used |-> r.used]     \* other is exact
-  ELSE IF s.bp # 0 THEN LET r == Replay(s, o.bb, cs, 0)                                                       \* standard_merge (equal k)
-                            q == Levels(r.s, o, 0, cs, r.used)
-                        IN [s |-> MergeGhost(q.s, s, o), used |-> q.used]
-  ELSE LET r == Replay(o, s.bb, cs, 0) IN [s |-> MergeGhost(r.s, s, o), used |-> r.used]                       \* this is exact: copy of other + replay
+  ELSE LET r == MergeCore(s, o, cs) IN [s |-> MergeGhost(Canon(r.s), s, o), used |-> r.used]
 CoinStrings(f) == [1..f -> {0, 1}]
 
 -----------------------------------------------------------------------------
